@@ -52,6 +52,10 @@ CHECKS = {
  "C14": dict(category="fault_enumeration", technique="for each scenario a clean run counts the allocation requests N and read requests R; then one run per k <= N with request k failing and one run per j <= R and fault kind (EINTR, EINTR twice, read error, EINTR after a partial fread); each outcome must be the documented one",
    text="Scenarios = {non-reentrant, reentrant, c99} x {user yyread, stdio fread, interactive getc loop, read(2)} x {plain, REJECT} x 4 inputs (including a token that forces buffer growth) x buffer sizes, under ASan with the ledger: an allocation failure must end in yylex_init's error return (ENOMEM/EINVAL) or in the fatal-error hook with a message, never in normal completion, a wrong token or a sanitizer report; EINTR must be retried with the token stream unchanged; a hard read error must reach the fatal-error hook with 'input in flex scanner failed'.",
    note="A user-supplied yyread has no errno protocol, so read faults are injected on the scanner's own paths only; two known findings (getc path does not retry EINTR; EINTR after a partial fread leaves the error indicator set); C++ stream errors are not yet covered.", design="2/C14"),
+
+ "C15": dict(category="model_checking", engine="tables-loader-driver", technique="round trip of serialized tables against the reference token stream for every table representation; independent parse of the file against the documented layout; exhaustive enumeration of load attempts: every truncation length, every damaged magic byte, every single-byte mutation (2 masks) judged by region; all 6 concatenation orders of three prefixed table sets",
+   text="For 3-4 rule sets x the 8 table representations x non-reentrant/reentrant (plus REJECT, yylineno and variable trailing context so that every table kind, including ACCLIST, NUL_TRANS, START_STATE_LIST and RULE_CAN_MATCH_EOL, is serialized): vflib/tblfile.py parses the file strictly by the manual's layout (magic, th_hsize/th_ssize, NUL-terminated version and name, flag/width consistency, network byte order, 8-byte padding of header and every table); the scanner with loaded tables must reproduce the reference tokens; yytables_fload must fail (error return or fatal hook, ASan-clean, nothing left allocated) for every proper prefix of the file and every damaged magic byte; a --tables-verify scanner must verify its own file, must still succeed when a byte of padding, version text or th_flags changes and must fail when a table element, table id or the magic number changes (one forked child per mutation); three differently-prefixed sets concatenated in all 6 orders are each found by name and scanned correctly, and everything is released after yytables_destroy + yylex_destroy.",
+   note="Arbitrary corruption of a plain tables file is not required to be detected (only truncation / magic); th_hsize, th_ssize and the set name are navigation data and not judged under mutation; one known finding (verify ignores table dimensions).", design="2/C15"),
 }
 
 NOT_YET = "check under construction in this round; will be claimed once it has run end-to-end on the unchanged tree"
@@ -67,6 +71,8 @@ def main():
      "engines": [
        {"name": "buffer-history-driver", "path": "csrc/vf_bufdriver.h", "serves_properties": ["C10", "C11", "C13", "C14"],
         "kind_free_text": "generated scanner #included into a driver that sits between yylex() calls and explores API-call histories depth-first with a deviation bound; per-buffer reference scanners, buffer stack and start-condition model"},
+       {"name": "tables-loader-driver", "path": "csrc/vf_tbldriver.h", "serves_properties": ["C15"],
+        "kind_free_text": "scanner built with %option tables-file #included into a driver that enumerates load attempts (prefixes, mutations) from memory images, with the allocation ledger; file layout judged by the independent parser vflib/tblfile.py"},
        {"name": "lockstep-harness", "path": "csrc/vf_driver.h", "serves_properties": sorted(k for k in CHECKS if CHECKS[k].get("engine", "lockstep-harness") == "lockstep-harness"),
         "kind_free_text": "generated scanner #included into a driver that enumerates inputs / choice vectors depth-first and compares every action with a reference scanner model (csrc/refscan.h over DFAs from vflib/refsem.py)"},
      ],
